@@ -620,7 +620,14 @@ def check_one(chain, b, xdev, comp, form='abs', group='chain', stats=None, virtu
         # (and allow_xdev) setting, so anything the routine remembers between calls in one process is part
         # of the judged execution - and of its stand-alone replay
         gem.call(ftl.find_top_level_manifest, path, allow_xdev=not xdev, allow_compressed=not comp)
-        o = gem.call(ftl.find_top_level_manifest, path, allow_xdev=xdev, allow_compressed=comp)
+        # the judged call passes only NON-default keyword arguments, so the documented defaults
+        # (allow_xdev=True, allow_compressed=False - what the CLI relies on) are what is exercised
+        kw = {}
+        if not xdev:
+            kw['allow_xdev'] = False
+        if comp:
+            kw['allow_compressed'] = True
+        o = gem.call(ftl.find_top_level_manifest, path, **kw)
     finally:
         PROXY.inner = None
         if cwd:
